@@ -448,6 +448,9 @@ size_t GlobalGraph::getNumberOfIncomingNeighbors(const Graph::NodeId node) const
 
 vector<Graph::NodeId> GlobalGraph::getNeighbors(const Graph::NodeId node) const
 {
+  // in an undirected graph each relation is stored in both maps: one of them lists every neighbor once
+  if (!directed_)
+    return getNeighbors_(node, true);
   vector<Graph::NodeId> result;
   vector<Graph::NodeId> neighborsToInsert;
   neighborsToInsert = getNeighbors_(node, false);
@@ -915,6 +918,9 @@ Graph::EdgeId GlobalGraph::getEdge(Graph::NodeId nodeA, Graph::NodeId nodeB) con
 
 vector<Graph::EdgeId> GlobalGraph::getEdges(Graph::NodeId node) const
 {
+  // in an undirected graph each relation is stored in both maps: one of them lists every edge once
+  if (!directed_)
+    return getEdges_(node, true);
   vector<Graph::EdgeId> result;
   vector<Graph::EdgeId> edgesToInsert;
   edgesToInsert = getEdges_(node, false);
